@@ -59,6 +59,8 @@ def worlds(rnd, n):
     out = []
     for k in range(n):
         prior = rnd.choice([0, 1, 1, 2, 3])
+        if k == 2:
+            prior = 17  # a long history (writers that treat long files differently)
         nested = rnd.random() < 0.45
         tree = {"a.txt": "alpha", "s/b.txt": "beta", "s/t/c.txt": "gamma"}
         ops = []
@@ -98,7 +100,27 @@ def run(ctx):
             for op in w["ops"]:
                 impl.run(dict(op))
             fin = dict(w["final"])
-            res = crash.enumerate_crash_states(impl.root, lambda: impl.run(fin), torn_mode="all" if ctx.thorough and wi < 5 else "sample", limit=ctx.scale(260, 2500))
+
+            def run_final():
+                # in one world the rename onto the chain file is refused by the system (EBUSY: a scanner holds the file):
+                # whatever the run does then, a kill at any point of it leaves the committed history intact
+                if wi != 1:
+                    return impl.run(fin)
+                import errno
+                real = os.replace
+
+                def refusing(src, dst, *a, **k):
+                    if str(dst).endswith("ascmhl_chain.xml"):
+                        raise OSError(errno.EBUSY, "Device or resource busy (injected)")
+                    return real(src, dst, *a, **k)
+
+                os.replace = refusing
+                try:
+                    return impl.run(fin)
+                finally:
+                    os.replace = real
+
+            res = crash.enumerate_crash_states(impl.root, run_final, torn_mode="all" if ctx.thorough and wi < 5 else "sample", limit=ctx.scale(120, 800) if w["c15"]["prior_root_generations"] > 10 else ctx.scale(260, 2500))
             evals += 1
             states += res["states"]
             dist["prior"][w["c15"]["prior_root_generations"]] = dist["prior"].get(w["c15"]["prior_root_generations"], 0) + 1
@@ -106,7 +128,8 @@ def run(ctx):
             dist["states_per_world"].append(res["states"])
             # the trace must be accepted by the model's protocol
             full = res.get("trace_abs") or []
-            for p in protocol_accepts(res["trace_full"], impl.root):
+            # (the run whose rename was refused ends early: its trace is a prefix of the protocol, judged by the crash states)
+            for p in ([] if wi == 1 else protocol_accepts(res["trace_full"], impl.root)):
                 corr.append({"what": f"write trace of create is not accepted by the model's write protocol: {p}", "replay": {"world": w, "trace": res["trace"][:40]}})
             for prob in res["unrecoverable"]:
                 sig = "zero_prior_generations" if ("refuses with 32" in prob and "[zero-prior-generation history" in prob) else None
